@@ -13,6 +13,7 @@ def load_worlds():
     import worlds.enip_hostile      # noqa: F401
     import worlds.stream            # noqa: F401
     import worlds.hist              # noqa: F401
+    import worlds.enip_client       # noqa: F401
     _loaded = True
 
 
@@ -167,5 +168,33 @@ PROPS = {
                      'the file system is passive (no concurrent writer is part of C18); the clock is the seam'],
         quick=dict(parts=[dict(world='c18', count=1600)]),
         thorough=dict(parts=[dict(world='c18', count=100000)]),
+    ),
+    'C12': dict(
+        level='exploration',
+        rule=('one seed -> 3..30 textual operations rendered from structured ops (Tag[a-b], Tag[a]*n, Tag*n, @c/i/a in hex/decimal, '
+              '+offset, =(TYPE)v,..., attribute services through attribute_operations, CIP-refused operations anywhere, per-operation '
+              'route paths) handed to the real parse_operations and connector.operate; the same list runs from the same pre-state under '
+              '2..4 configurations drawn from {synchronous, depth 1,2,5,17} x {multiple 0,100,250,500,4000} x {fragment on/off}; every '
+              'configuration must yield one result per operation, in order, equal to the model evaluated on the structured op and equal '
+              'across configurations, with equal final tag state; the wire tap checks that bundles keep operation order and never mix '
+              'route paths; non-trivial = >= 4 results compared under >= 2 configurations'),
+        assumptions=['pre-state restored by direct assignment between configurations (harness privilege)',
+                     'the pure format_path/parse_path round trip (second sentence of C12) is exercised only as far as the workload spells it'],
+        quick=dict(parts=[dict(world='c12', count=200)]),
+        thorough=dict(parts=[dict(world='c12', count=8000)]),
+    ),
+    'C13': dict(
+        level='fault_enumeration',
+        rule=('one seed -> tags pre-loaded with a unique value per element, 2..12 reads of distinct ranges through connector.pipeline '
+              '(depth 1..8, multiple 0/250/500), connector.synchronous, or proxy.read inside poll.run; the client connection gets one '
+              'fault: server->client stream cut at byte k then FIN / RST / silence, a whole reply lost, client->server cut, latency '
+              'beyond the timeout, or none; proxy mode: faults on every connection until a heal instant.  Oracles: every yielded '
+              'result equals the model for its own index, no more results than completely delivered replies, all results or an '
+              'exception (never a silent short list), after a failed poll the proxy holds no gateway, after the heal a complete '
+              'correct poll over a newly registered session within 120 simulated s; thorough tier sweeps every cut offset of sampled '
+              'exchanges; non-trivial = the fault fired (or none configured) and >= 1 result/poll'),
+        assumptions=['client timeouts, poll cycle and back-off run on the virtual clock'],
+        quick=dict(parts=[dict(world='c13', count=320)]),
+        thorough=dict(parts=[dict(world='c13', count=8000)], sweep=dict(world='c13', streams=16)),
     ),
 }
